@@ -22,7 +22,10 @@ RULE = ("candidate lists of 0-4 variants (ECU variants with 0-3 patterns, base v
         "2-4 value alphabet incl. the empty answer and negative responses, exhaustive over all tables when there are few, "
         "physical/functional answers equal or different; strict mode on/off; cache on/off; misuse scripts (no evaluate, "
         "abandoned loop, re-run). Two builders: objects with stubbed encode_request/decode ('obj'), and ODX XML through the "
-        "real parser with the real encode_request/decode ('xml'). distinct = distinct (configuration, ECU table, strict, "
+        "real parser with the real encode_request/decode ('xml'; the reference and the model take the matching parameters as "
+        "written in the document, the matcher the loaded objects; 'xml-text': blank padded fixed-length ASCII identification "
+        "texts in structures and fields, expected values derived from the decoded responses, with and without white space at "
+        "their ends -- white space in an expected value is significant). distinct = distinct (configuration, ECU table, strict, "
         "cache, script); non-trivial = at least one request was yielded")
 TRUSTED = ["model lean/OdxVerif/Model/Variant.lean is hand-written; tied to odxtools/variantmatcher.py + matchingparameter.py by "
            "comparing request traces, outcomes, matcher state and cache contents",
